@@ -259,6 +259,13 @@ def run(ctx):
         "tokenizer: termination only (non-nullable linear-shape patterns, advancing loop); token classification is not specified",
         "PyYAML errors; emitters",
     ]
+    if ctx.tier != "thorough":
+        # literal spellings in every position where the parser converts a token itself, edge texts, documented forms + junk
+        r = ctx.monitor("m_parser", "search", 600, ctx.seed)
+        ctx.bounded.append({"monitor": "m_parser", "kind": "bounded run of the real declaration parser: literal spellings in converting "
+                            "positions, edge texts, documented forms + stray text", "inputs_tried": r["tried"], "violation": r["violation"]})
+        if r["violation"]:
+            ctx.violation("bounded/m_parser", {"inputs": r["inputs"], "observed": r["violation"]}, True)
     if ctx.tier == "thorough":
         r = ctx.monitor("m_parser", "search", 20000, ctx.seed)
         ctx.bounded.append({"monitor": "m_parser", "kind": "bounded run of the real declaration parser: documented forms, forms + stray text, random token strings",
